@@ -2,9 +2,9 @@ package sym
 
 import (
 	"fmt"
+	"go/types"
 	"math/big"
 	"os"
-	"go/types"
 	"sort"
 	"strings"
 	"sync"
@@ -14,19 +14,19 @@ import (
 )
 
 type Config struct {
-	Unwind       int // max symbolic-branch decisions per If instruction per frame activation
-	MaxSteps     int // per path
-	MaxPaths     int
-	MaxValues    int // concretization fan-out cap
-	MaxDepth     int // call depth
-	TimeoutMS    int
+	Unwind              int // max symbolic-branch decisions per If instruction per frame activation
+	MaxSteps            int // per path
+	MaxPaths            int
+	MaxValues           int // concretization fan-out cap
+	MaxDepth            int // call depth
+	TimeoutMS           int
 	PanicsAreViolations bool
-	CrossN       int
-	Verbose      bool
-	Deadline     time.Time
-	Concrete     *Tape // non-nil: concrete mode, Nondet* read this tape
-	Tier         string
-	NoMerge      bool
+	CrossN              int
+	Verbose             bool
+	Deadline            time.Time
+	Concrete            *Tape // non-nil: concrete mode, Nondet* read this tape
+	Tier                string
+	NoMerge             bool
 }
 
 type Violation struct {
@@ -63,51 +63,52 @@ type PathSample struct {
 }
 
 type Report struct {
-	Harness       string
-	Paths         int
+	Harness        string
+	Paths          int
 	PathsByOutcome map[string]int
-	Obligations   int
-	Trivial       int
-	Discharged    int
-	Violations    []Violation
-	Inconclusive  []string // reasons
-	Reached       map[string]int
-	ReachModels   map[string][]TapeEntry
-	Steps         int
-	Forks         int
-	FuncsEncoded  map[string]int // function -> instructions executed
-	Models        map[string]int // engine models / stubs hit
-	Assumptions   map[string]int
-	Samples       []PathSample
-	DistinctObl   map[int]bool
-	Solver        SolverStats
-	Wall          time.Duration
-	MaxUnwindSeen int
-	WitnessHits   int
+	Obligations    int
+	Trivial        int
+	Discharged     int
+	Violations     []Violation
+	Inconclusive   []string // reasons
+	Reached        map[string]int
+	ReachModels    map[string][]TapeEntry
+	Steps          int
+	Forks          int
+	FuncsEncoded   map[string]int // function -> instructions executed
+	Models         map[string]int // engine models / stubs hit
+	Assumptions    map[string]int
+	Samples        []PathSample
+	DistinctObl    map[int]bool
+	Solver         SolverStats
+	Wall           time.Duration
+	MaxUnwindSeen  int
+	WitnessHits    int
 	ObligationTags map[string]int
 }
 
 type Engine struct {
-	prog     *ssa.Program
-	ts       *TermStore
-	solver   *Solver
-	cfg      Config
-	work     []*State
-	stateSeq int
-	objSeq   int
-	rep      *Report
-	stubs    map[string]*ssa.Function
-	fnInfos  sync.Map
-	initStores map[*ssa.Package]map[*ssa.Global]bool
-	violTags map[string]bool
-	fresh    int
-	noopT    map[string]types.Type
-	cur      *State
-	harnessPkg *ssa.Package
-	feasCache map[string]Result
-	initCache map[*ssa.Package]*initSnap
-	mergeMemo map[string][]*mergeMemoEntry
-	noops     []string
+	prog           *ssa.Program
+	ts             *TermStore
+	solver         *Solver
+	cfg            Config
+	work           []*State
+	stateSeq       int
+	objSeq         int
+	rep            *Report
+	stubs          map[string]*ssa.Function
+	fnInfos        sync.Map
+	initStores     map[*ssa.Package]map[*ssa.Global]bool
+	violTags       map[string]bool
+	fresh          int
+	noopT          map[string]types.Type
+	cur            *State
+	harnessPkg     *ssa.Package
+	feasCache      map[string]Result
+	initCache      map[*ssa.Package]*initSnap
+	foreignWriters map[*ssa.Global][]*ssa.Package
+	mergeMemo      map[string][]*mergeMemoEntry
+	noops          []string
 }
 
 func NewEngine(prog *ssa.Program, cfg Config) (*Engine, error) {
@@ -147,7 +148,7 @@ func NewEngine(prog *ssa.Program, cfg Config) (*Engine, error) {
 func (e *Engine) Close() { e.solver.Close() }
 
 func (e *Engine) AddStub(callee string, fn *ssa.Function) { e.stubs[callee] = fn }
-func (e *Engine) AddNoop(prefix string)                  { e.noops = append(e.noops, prefix) }
+func (e *Engine) AddNoop(prefix string)                   { e.noops = append(e.noops, prefix) }
 
 func (e *Engine) info(fn *ssa.Function) *fnInfo {
 	if v, ok := e.fnInfos.Load(fn); ok {
@@ -176,8 +177,8 @@ func (e *Engine) info(fn *ssa.Function) *fnInfo {
 }
 
 // control-flow signals raised inside instruction execution
-type sigRetry struct{}              // state changed (frame pushed / forked); re-run the step loop
-type sigDead struct{ why string }   // path ends here
+type sigRetry struct{}            // state changed (frame pushed / forked); re-run the step loop
+type sigDead struct{ why string } // path ends here
 type sigUnsupported struct{ what string }
 
 func (e *Engine) unsupported(format string, a ...interface{}) {
